@@ -12,3 +12,4 @@ import Verif.Properties.C07
 #print axioms C07.removalPass_order_independent
 #print axioms C07.sortedParents_order_independent
 #print axioms C07.namesFromKey_order_independent
+#print axioms C07.importRebase_order_independent
